@@ -39,7 +39,7 @@ impl MessageCursor {
             let amount = usize::min(self.data.len() - self.index, dest.len());
             if amount > 0 {
                 let dest_slice = &mut dest[..amount];
-                let source_slice = &self.data[..amount];
+                let source_slice = &self.data[self.index..self.index + amount];
 
                 dest_slice.copy_from_slice(source_slice);
 
